@@ -561,6 +561,20 @@ impl<'src> Walker<'src>
                 }
             }
 
+            // A string is one operand token: whatever
+            // it contains is not the wanted character
+            if c == '"'
+            {
+                let token = self.token_at(byte_index);
+
+                if token.kind == syntax::TokenKind::String
+                {
+                    byte_index = self.get_index_at_span_end(token.span);
+                    seen_tokens = true;
+                    continue;
+                }
+            }
+
             if c.eq_ignore_ascii_case(&wanted_char) &&
                 seen_tokens &&
                 paren_nesting == 0 &&
